@@ -278,6 +278,134 @@ def check_testdata(base, res):
     res.outcome(('td', base))
 
 
+
+# ---------------------------------------------------------------- whole .p8 files as PICO-8 writes them
+P8_SECTION_ORDER = ['gfx', 'label', 'gff', 'map', 'sfx', 'music']
+ROW_BYTES = {'gfx': 64, 'label': 64, 'gff': 128, 'map': 128, 'sfx': 68, 'music': 4}
+
+
+def pico8_defaults():
+    """Region contents of a cart nobody edited: taken from the PICO-8-written tests/testdata/empty.p8.png through the
+    reference PNG decoder (so 'what a left-out section / left-out trailing rows mean' is PICO-8's own answer)."""
+    data = open(os.path.join(REPO, 'tests', 'testdata', 'empty.p8.png'), 'rb').read()
+    w, h, planes, rows = rc.png_decode(data)
+    m = rc.split_memory(rc.stego_unpack(w, h, planes, rows))
+    return {name: m[name] for name, _ in rc.REGION_ORDER}
+
+
+def sparse_file(present, keep_rows, seed, salt, label, version, blank_after=('gfx', 'label', 'music')):
+    """A .p8 file in the shape PICO-8 saves: only the sections in `present`, each with its first keep_rows[name] rows
+    (the rows after them hold the never-edited default and are left out). Returns (file bytes, expected regions,
+    expected label or None)."""
+    from lib.carts import seeded_region
+    dflt = pico8_defaults()
+    out = [rc.P8_HEADER, b'version %d\n' % version, b'__lua__\n', b'x=%d\n' % salt]
+    want = {}
+    enc = dict(REF_ROWS)
+    enc['label'] = rc.gfx_rows
+    lab = None
+    for name in P8_SECTION_ORDER:
+        if name == 'label':
+            if label:
+                lab = bytes((b & 0x0f) | ((b >> 2) & 0xf0) for b in seeded_region(0x2000, seed, salt * 7 + 5))
+                out.append(b'__label__\n' + b''.join(r.encode() + b'\n' for r in rc.gfx_rows(lab)))
+                if 'label' in blank_after:
+                    out.append(b'\n')
+            continue
+        size = dict((n, hi - lo) for n, (lo, hi) in rc.REGION_ORDER)[name]
+        if name not in present:
+            want[name] = dflt[name]
+            continue
+        nrows = size // ROW_BYTES[name]
+        k = min(nrows, keep_rows.get(name, nrows))
+        busy = bytearray(seeded_region(size, seed, salt * 11 + len(name)))
+        if name == 'music':
+            for i in range(3, size, 4):
+                busy[i] &= 0x7f
+        mem = bytes(busy[:k * ROW_BYTES[name]]) + dflt[name][k * ROW_BYTES[name]:]
+        want[name] = mem
+        rows_txt = enc[name](mem)[:k]
+        out.append(b'__' + name.encode() + b'__\n' + b''.join(r.encode() + b'\n' for r in rows_txt))
+        if name in blank_after:
+            out.append(b'\n')
+    return b''.join(out), want, lab
+
+
+def file_cases(tier):
+    """(tag, present sections, rows kept, label) — every subset of the five data sections, whole and truncated."""
+    names = [n for n, _ in rc.REGION_ORDER]
+    cases = []
+    for mask in range(32):
+        present = tuple(n for i, n in enumerate(names) if mask >> i & 1)
+        cases.append(('subset-%02d-full' % mask, present, {}, mask % 3 == 0))
+        cases.append(('subset-%02d-short' % mask, present, {'gfx': 5, 'map': 3, 'gff': 1, 'sfx': 2, 'music': 3}, mask % 3 == 1))
+    if tier == 'thorough':
+        for mask in range(32):
+            present = tuple(n for i, n in enumerate(names) if mask >> i & 1)
+            cases.append(('subset-%02d-one-row' % mask, present, {'gfx': 1, 'map': 1, 'gff': 1, 'sfx': 1, 'music': 1}, mask % 2 == 0))
+    return cases
+
+
+def check_files(tier, seed, order, res):
+    """Reads the sparse files one after the other IN ONE PROCESS (order: 0 as listed, 1 reversed, 2 full carts
+    interleaved with sparse ones, 3 through one multi-file `p8tool stats` call first), each through file.from_file on
+    a real path; every read must give the file's own contents."""
+    import tempfile
+    from pico8.game import file as p8file
+    cases = file_cases(tier)
+    if order == 1:
+        cases = cases[::-1]
+    elif order >= 2:
+        full = [c for c in cases if len(c[1]) == 5 and not c[2]][0]
+        mixed = []
+        for c in cases:
+            mixed += [full, c]
+        cases = mixed
+    d = tempfile.mkdtemp(prefix='c16files_')
+    paths = []
+    for i, (tag, present, keep, label) in enumerate(cases):
+        # blank lines at section ends: where PICO-8 / picotool's writer put them, after every section, or nowhere
+        blank = [('gfx', 'label', 'music'), tuple(P8_SECTION_ORDER), ()][(i // 2 + order) % 3]
+        data, want, lab = sparse_file(present, keep, seed, i % 7 + 1, label, [8, 16, 29, 41][i % 4], blank_after=blank)
+        pth = os.path.join(d, 'f%03d.p8' % i)
+        open(pth, 'wb').write(data)
+        paths.append((pth, tag, want, lab, [8, 16, 29, 41][i % 4]))
+    if order == 3:
+        from pico8 import tool
+        try:
+            tool.main(['--quiet', 'stats'] + [p_[0] for p_ in paths[:40]])
+        except SystemExit:
+            pass
+    for pth, tag, want, lab, version in paths:
+        res.evaluations += 1
+        res.nontriv(('file', tag, order))
+        case = {'kind': 'files', 'tier': tier, 'seed': seed, 'order': order, 'tag': tag}
+        try:
+            g = p8file.from_file(pth)
+        except Exception as e:
+            res.violation('C16|file|raise|%s' % type(e).__name__, 'loading the .p8 file %s raised %r' % (tag, e), case)
+            continue
+        for name, _ in rc.REGION_ORDER:
+            got = bytes(getattr(g, name).to_bytes())
+            if name == 'music':
+                got = bytes((x & 0x7f) if i % 4 == 3 else x for i, x in enumerate(got))
+            if got != want[name]:
+                how = 'present' if name in tag else 'section'
+                off = next((i for i in range(min(len(got), len(want[name]))) if got[i] != want[name][i]), min(len(got), len(want[name])))
+                res.violation('C16|file|%s|%s' % (name, 'size' if len(got) != len(want[name]) else 'content'),
+                              '.p8 file %s (read order %d): region %s differs from what the file says at offset %#x '
+                              '(read %d bytes, file + PICO-8 defaults give %d bytes)' % (tag, order, name, off, len(got), len(want[name])), case)
+        glab = getattr(g, 'label', None)
+        glab_b = bytes(glab.to_bytes()) if glab is not None else None
+        if (lab is None) != (glab_b is None) or (lab is not None and glab_b != lab):
+            res.violation('C16|file|label', '.p8 file %s (read order %d): label %s, the file %s' % (
+                tag, order, 'absent' if glab_b is None else 'present', 'has none' if lab is None else 'has one (or its pixels differ)'), case)
+        if g.version != version:
+            res.violation('C16|file|version', '.p8 file %s: version read %r, file says %d' % (tag, g.version, version), case)
+        res.outcome(('file', len(want)))
+    import shutil
+    shutil.rmtree(d, ignore_errors=True)
+
 # ---------------------------------------------------------------- driver
 SFX_SPECIAL_HEADERS = [(0, 16, 0, 0), (0, 1, 0, 0), (0, 0, 0, 0), (1, 16, 0, 0), (0, 16, 0, 1), (0, 32, 0, 0)]
 MUSIC_SPECIAL_ROWS = [(0x41, 0x42, 0x43, 0x44), (0, 0, 0, 0), (0x40, 0x40, 0x40, 0x40), (0, 1, 2, 3), (0xc1, 0x42, 0x43, 0x44)]
@@ -331,6 +459,8 @@ def shards(tier, seed):
         items.append(('png', v, seed))
     for base in ('test_cart', 'test_gol', 'test_cart_memdump', 'empty'):
         items.append(('td', base))
+    for order in range(4):
+        items.append(('files', tier, seed, order))
     return items
 
 
@@ -381,6 +511,10 @@ def run_shard(item):
         check_png_whole(item[1], item[2], res)
     elif kind == 'td':
         check_testdata(item[1], res)
+    elif kind == 'files':
+        check_files(item[1], item[2], item[3], res)
+        if item[3] == 0:
+            res.sample({'family': 'files', 'example': 'subset-05-short: only __gfx__ (5 rows) and __gff__ (1 row) present'})
     return res
 
 
@@ -394,4 +528,6 @@ def replay(case):
         check_png_whole(case['variant'], case['seed'], res)
     elif case['kind'] == 'testdata':
         check_testdata(case['base'], res)
+    elif case['kind'] == 'files':
+        check_files(case['tier'], case['seed'], case['order'], res)
     return [(s, v[0]) for s, v in res.violations.items()]
